@@ -1,6 +1,696 @@
 package msim
 
-// placeholder until the testify driver lands
-func RunTestify(reg *Registration, cs *Case) (*Violation, RunStats) { return nil, RunStats{} }
+import (
+	"fmt"
+	"reflect"
+	"sort"
+	"strings"
 
-func genTestifyCase(prop string, reg *Registration, cs *Case, ms []methodInfo, r *Rng) {}
+	"github.com/stretchr/testify/mock"
+
+	"verif/sim/msim/simsync"
+)
+
+// ---------------------------------------------------------------------------------------------
+// testify-style mocks: C03 (routing of arguments, callbacks and returns; sequential histories)
+// and the testify half of C05 (several tasks registering expectations and calling).
+
+// CFP is the content fingerprint used to predict testify's argument matching
+// (ObjectsAreEqual = reflect.DeepEqual): deep through pointers, no identities.
+func CFP(v reflect.Value) string {
+	if !v.IsValid() {
+		return "invalid"
+	}
+	switch v.Kind() {
+	case reflect.Ptr:
+		if v.IsNil() {
+			return "ptr:nil"
+		}
+		return "&" + CFP(v.Elem())
+	case reflect.Interface:
+		if v.IsNil() {
+			return "iface:nil"
+		}
+		return "iface(" + v.Elem().Type().String() + ":" + CFP(v.Elem()) + ")"
+	case reflect.Map:
+		if v.IsNil() {
+			return "map:nil"
+		}
+		var parts []string
+		for _, k := range v.MapKeys() {
+			parts = append(parts, CFP(k)+"=>"+CFP(v.MapIndex(k)))
+		}
+		sort.Strings(parts)
+		return "map{" + strings.Join(parts, ",") + "}"
+	case reflect.Slice:
+		if v.IsNil() {
+			return "slice:nil"
+		}
+		fallthrough
+	case reflect.Array:
+		parts := make([]string, v.Len())
+		for i := range parts {
+			parts[i] = CFP(v.Index(i))
+		}
+		return "[" + strings.Join(parts, ",") + "]"
+	case reflect.Struct:
+		var parts []string
+		for i := 0; i < v.NumField(); i++ {
+			parts = append(parts, CFP(v.Field(i)))
+		}
+		return "{" + strings.Join(parts, ",") + "}"
+	case reflect.Chan, reflect.Func:
+		return "identity-only"
+	}
+	return FP(v)
+}
+
+func identityOnly(t reflect.Type) bool { return t.Kind() == reflect.Chan || t.Kind() == reflect.Func }
+
+const anyMatcher = "\x00ANY"
+
+type cbInv struct {
+	exp    *expState
+	kind   string // run | rar | prov<i>
+	argFPs []string
+	res    []reflect.Value
+}
+
+type expState struct {
+	idx      int
+	m        *methodInfo
+	matchers []string // per argument handed to mock.Called: anyMatcher or a CFP
+	style    string
+	bound    int
+	optional bool
+	count    int
+	retVals  []reflect.Value // configured return values (nil entries = provider)
+	provider []bool
+	task     int
+}
+
+func (e *expState) live() bool { return e.bound == 0 || e.count < e.bound }
+
+type testifyRun struct {
+	reg     *Registration
+	cs      *Case
+	t       *RecT
+	mv      reflect.Value
+	methods []methodInfo
+	exps    []*expState
+	byOp    map[[2]int]*expState // (task, op index) → expectation
+	cbs     []cbInv
+	viol    *Violation
+	unroll  bool
+	resGen  *Gen
+	calls   int // completed matched calls (recorded by testify)
+	tags    map[string]bool
+	cleaned bool
+	// ambiguous: the history reached a point where testify's Anything-matches-a-missing-argument
+	// rule decides the outcome; from there on nothing is judged
+	ambiguous bool
+}
+
+func (r *testifyRun) fail(v *Violation) {
+	if r.viol == nil {
+		r.viol = v
+	}
+}
+
+// calledArgs lists the arguments the generated method hands to mock.Called, per the statement:
+// unrolled element-wise, or the variadic slice as a single trailing argument (absent when empty).
+func (r *testifyRun) calledArgs(m *methodInfo, a argSet) []reflect.Value {
+	if !m.Variadic {
+		return a.Vals
+	}
+	n := m.Type.NumIn() - 1
+	fixed := append([]reflect.Value(nil), a.Vals[:n]...)
+	elems := a.Vals[n:]
+	if r.unroll {
+		return append(fixed, elems...)
+	}
+	if len(elems) == 0 {
+		return fixed
+	}
+	sl := reflect.MakeSlice(m.Type.In(n), len(elems), len(elems))
+	for i, e := range elems {
+		sl.Index(i).Set(e)
+	}
+	return append(fixed, sl)
+}
+
+func (r *testifyRun) trig(m *methodInfo, style string) string {
+	return fmt.Sprintf("style=%s,params=%d,results=%d,variadic=%v,unroll=%v", style, m.Type.NumIn(), m.Type.NumOut(), m.Variadic, r.unroll)
+}
+
+func (r *testifyRun) recorder(e *expState, kind string, ft reflect.Type, outs func() []reflect.Value) reflect.Value {
+	return reflect.MakeFunc(ft, func(in []reflect.Value) []reflect.Value {
+		inv := cbInv{exp: e, kind: kind, argFPs: fpsOfReceived(e.m, in)}
+		simsync.Yield()
+		if outs != nil {
+			inv.res = outs()
+		}
+		r.cbs = append(r.cbs, inv)
+		return inv.res
+	})
+}
+
+func (r *testifyRun) register(task, oi int, op Op) {
+	m := findMethod(r.methods, op.Method)
+	if m == nil {
+		return
+	}
+	site := r.reg.Variant
+	g := &Gen{R: NewRng(op.Seed), Prefix: fmt.Sprintf("a%d.%d", task, oi), NilRate: r.cs.NilRate, Base: (task*64 + oi + 1) * 100000}
+	args := genArgs(m, g, op.NArgs-1)
+	called := r.calledArgs(m, args)
+	e := &expState{idx: len(r.exps), m: m, style: op.Style, task: task}
+	matchVals := make([]reflect.Value, len(called))
+	for i, v := range called {
+		anyM := op.Match == "anything" || identityOnly(v.Type()) || (op.Match == "mixed" && (int(op.Seed>>uint(i%16))&1 == 1))
+		if anyM {
+			e.matchers = append(e.matchers, anyMatcher)
+			matchVals[i] = reflect.ValueOf(mock.Anything)
+		} else {
+			e.matchers = append(e.matchers, CFP(v))
+			matchVals[i] = v
+		}
+	}
+	var callV reflect.Value
+	pv, panicked := safeCall(func() {
+		exp := r.mv.MethodByName("EXPECT").Call(nil)[0]
+		ins := make([]reflect.Value, len(matchVals))
+		for i, v := range matchVals {
+			if !v.IsValid() || (v.Kind() == reflect.Interface && v.IsNil()) {
+				ins[i] = reflect.Zero(reflect.TypeOf((*interface{})(nil)).Elem())
+			} else {
+				ins[i] = v
+			}
+		}
+		callV = exp.MethodByName(m.Name).Call(ins)[0]
+	})
+	if panicked {
+		r.fail(&Violation{"expectation-registration-panics", site, r.trig(m, op.Style), "EXPECT()." + m.Name + "(…) registers an expectation", short(fmt.Sprint(pv), 300)})
+		return
+	}
+	nOut := m.Type.NumOut()
+	ins := make([]reflect.Type, m.Type.NumIn())
+	for i := range ins {
+		ins[i] = m.Type.In(i)
+	}
+	freshOuts := func() []reflect.Value {
+		out := make([]reflect.Value, nOut)
+		for i := range out {
+			out[i] = r.resGen.Value(m.Type.Out(i))
+		}
+		return out
+	}
+	e.provider = make([]bool, nOut)
+	style := op.Style
+	if nOut == 0 && (style == "return" || style == "providers" || style == "none") {
+		style = "none" // nothing to configure
+	}
+	if nOut == 0 && style == "run+return" {
+		style = "run"
+	}
+	e.style = style
+	pv, panicked = safeCall(func() {
+		switch style {
+		case "return", "run+return":
+			if style == "run+return" {
+				callV.MethodByName("Run").Call([]reflect.Value{r.recorder(e, "run", reflect.FuncOf(ins, nil, m.Variadic), nil)})
+			}
+			e.retVals = freshOuts()
+			callV.MethodByName("Return").Call(e.retVals)
+		case "run":
+			callV.MethodByName("Run").Call([]reflect.Value{r.recorder(e, "run", reflect.FuncOf(ins, nil, m.Variadic), nil)})
+		case "runandreturn":
+			outs := make([]reflect.Type, nOut)
+			for i := range outs {
+				outs[i] = m.Type.Out(i)
+			}
+			kind := "rar"
+			if nOut == 0 {
+				kind = "run"
+			}
+			callV.MethodByName("RunAndReturn").Call([]reflect.Value{r.recorder(e, kind, reflect.FuncOf(ins, outs, m.Variadic), freshOuts)})
+		case "providers":
+			// untyped Return: a function provider for some results, plain values for the others
+			vals := make([]reflect.Value, nOut)
+			e.retVals = make([]reflect.Value, nOut)
+			anyProv := false
+			for i := 0; i < nOut; i++ {
+				if (op.Seed>>(uint(i)+20))&1 == 1 || (i == nOut-1 && !anyProv) {
+					i := i
+					e.provider[i] = true
+					anyProv = true
+					vals[i] = r.recorder(e, fmt.Sprintf("prov%d", i), reflect.FuncOf(ins, []reflect.Type{m.Type.Out(i)}, m.Variadic), func() []reflect.Value {
+						return []reflect.Value{r.resGen.Value(m.Type.Out(i))}
+					})
+				} else {
+					v := r.resGen.Value(m.Type.Out(i))
+					e.retVals[i] = v
+					iv := reflect.New(reflect.TypeOf((*interface{})(nil)).Elem()).Elem()
+					if !(v.Kind() == reflect.Interface && v.IsNil()) {
+						iv.Set(v)
+					}
+					vals[i] = iv
+				}
+			}
+			callV.Elem().FieldByName("Call").MethodByName("Return").Call(vals)
+		case "none":
+		}
+		switch op.Times {
+		case "once":
+			callV.MethodByName("Once").Call(nil)
+			e.bound = 1
+		case "twice":
+			callV.MethodByName("Twice").Call(nil)
+			e.bound = 2
+		case "times3":
+			callV.MethodByName("Times").Call([]reflect.Value{reflect.ValueOf(3)})
+			e.bound = 3
+		case "maybe":
+			callV.MethodByName("Maybe").Call(nil)
+			e.optional = true
+		}
+	})
+	if panicked {
+		r.fail(&Violation{"expectation-setup-panics", site, r.trig(m, style), "the typed " + style + " set-up is accepted", short(fmt.Sprint(pv), 300)})
+		return
+	}
+	r.exps = append(r.exps, e)
+	r.byOp[[2]int{task, oi}] = e
+}
+
+func (r *testifyRun) match(m *methodInfo, called []reflect.Value) *expState {
+	cf := make([]string, len(called))
+	for i, v := range called {
+		cf[i] = CFP(v)
+	}
+	var strict, lenient *expState
+	for _, e := range r.exps {
+		if e.m.Name != m.Name || !e.live() {
+			continue
+		}
+		ok := len(e.matchers) == len(cf)
+		for i := 0; ok && i < len(cf); i++ {
+			if e.matchers[i] != anyMatcher && e.matchers[i] != cf[i] {
+				ok = false
+			}
+		}
+		if ok && strict == nil {
+			strict = e
+		}
+		// testify lets mock.Anything match a *missing* argument; the statement is silent on
+		// that, so a call whose outcome depends on it is not judged (see ambiguous)
+		lok := len(e.matchers) >= len(cf)
+		for i := 0; lok && i < len(e.matchers); i++ {
+			switch {
+			case i >= len(cf):
+				lok = e.matchers[i] == anyMatcher
+			case e.matchers[i] != anyMatcher && e.matchers[i] != cf[i]:
+				lok = false
+			}
+		}
+		if lok && lenient == nil {
+			lenient = e
+		}
+	}
+	if strict != lenient {
+		r.ambiguous = true
+	}
+	return strict
+}
+
+func (r *testifyRun) call(task, oi int, op Op, ops []Op) {
+	m := findMethod(r.methods, op.Method)
+	if m == nil {
+		return
+	}
+	site := r.reg.Variant
+	seed, prefix, nargs, base := op.Seed, fmt.Sprintf("c%d.%d", task, oi), op.NArgs, (task*64+oi+1)*100000+50000
+	if op.Ref > 0 && op.Ref <= len(ops) && ops[op.Ref-1].Kind == "expect" && ops[op.Ref-1].Method == op.Method {
+		// the arguments the referenced expectation was registered for (regenerated: equal content,
+		// fresh pointers)
+		seed, prefix, nargs, base = ops[op.Ref-1].Seed, fmt.Sprintf("a%d.%d", task, op.Ref-1), ops[op.Ref-1].NArgs, (task*64+op.Ref)*100000
+	}
+	g := &Gen{R: NewRng(seed), Prefix: prefix, NilRate: r.cs.NilRate, Base: base}
+	args := genArgs(m, g, nargs-1)
+	if r.ambiguous {
+		return
+	}
+	e := r.match(m, r.calledArgs(m, args))
+	if r.ambiguous {
+		r.tags["probe:not-judged-anything-vs-missing-argument"] = true
+		safeCall(func() { r.mv.MethodByName(m.Name).Call(args.Vals) })
+		return
+	}
+	errs0, fails0, cbs0 := len(r.t.Errors), r.t.FailNows, len(r.cbs)
+	var outs []reflect.Value
+	pv, panicked := safeCall(func() { outs = r.mv.MethodByName(m.Name).Call(args.Vals) })
+	what := m.Name + args.Descr
+	cbs := r.cbs[cbs0:]
+	if e == nil {
+		r.tags["probe:unmatched-call"] = true
+		trig := r.trig(m, "no-expectation")
+		_, isFail := pv.(failNowSentinel)
+		if !panicked || !isFail || r.t.FailNows == fails0 || len(r.t.Errors) == errs0 {
+			obs := "returned normally"
+			if panicked && !isFail {
+				obs = "panic: " + short(fmt.Sprint(pv), 300)
+			}
+			r.fail(&Violation{"unmatched-call-does-not-fail-the-test", site, trig, "a call with no matching expectation fails the test (Errorf + FailNow) instead of returning", what + ": " + obs})
+		}
+		return
+	}
+	e.count++
+	trig := r.trig(m, e.style)
+	if _, isFail := pv.(failNowSentinel); panicked && isFail {
+		r.fail(&Violation{"matching-call-fails-the-test", site, trig, "a call matching expectation #" + fmt.Sprint(e.idx) + " returns", what + " → FailNow: " + short(strings.Join(r.t.Errors[errs0:], " / "), 400)})
+		return
+	}
+	nOut := m.Type.NumOut()
+	if (e.style == "none" || e.style == "run") && nOut > 0 {
+		if !panicked {
+			r.fail(&Violation{"no-return-configured-no-panic", site, trig, "a panic naming " + m.Name, what + " returned normally"})
+		} else if msg := fmt.Sprint(pv); !strings.Contains(msg, m.Name) {
+			r.fail(&Violation{"no-return-panic-does-not-name-method", site, trig, "a panic naming " + m.Name, short(msg, 300)})
+		}
+		r.calls++
+		return
+	}
+	if panicked {
+		r.fail(&Violation{"matched-call-panics", site, trig + "," + nilTrigger(args), what + " returns", "panic: " + short(fmt.Sprint(pv), 400)})
+		return
+	}
+	r.calls++
+	// callbacks: each configured one exactly once, with exactly the call's arguments
+	want := map[string]bool{}
+	switch e.style {
+	case "run", "run+return":
+		want["run"] = true
+	case "runandreturn":
+		if nOut == 0 {
+			want["run"] = true
+		} else {
+			want["rar"] = true
+		}
+	case "providers":
+		for i, p := range e.provider {
+			if p {
+				want[fmt.Sprintf("prov%d", i)] = true
+			}
+		}
+	}
+	seen := map[string]int{}
+	for _, cb := range cbs {
+		if cb.exp != e {
+			r.fail(&Violation{"callback-of-other-expectation-invoked", site, trig, "only the matching expectation's callbacks run", fmt.Sprintf("%s invoked a %s callback of expectation #%d", what, cb.kind, cb.exp.idx)})
+			return
+		}
+		seen[cb.kind]++
+		if !eqStrs(cb.argFPs, args.FPs) {
+			r.fail(&Violation{"callback-arguments-differ", site, trig + "," + cb.kind, "the callback receives exactly the call's arguments: " + short(tupleOf(args.FPs), 300), short(tupleOf(cb.argFPs), 300)})
+			return
+		}
+	}
+	for k := range want {
+		if seen[k] != 1 {
+			r.fail(&Violation{"callback-invocation-count", site, trig + "," + strings.TrimRight(k, "0123456789"), "each configured callback is invoked exactly once per call", fmt.Sprintf("%s: %s invoked %d times", what, k, seen[k])})
+			return
+		}
+	}
+	for k, n := range seen {
+		if !want[k] || n != 1 {
+			r.fail(&Violation{"callback-invocation-count", site, trig + "," + strings.TrimRight(k, "0123456789"), "each configured callback is invoked exactly once per call", fmt.Sprintf("%s: %s invoked %d times", what, k, n)})
+			return
+		}
+	}
+	// results
+	exp := make([]string, nOut)
+	for i := 0; i < nOut; i++ {
+		switch {
+		case e.style == "runandreturn":
+			for _, cb := range cbs {
+				if cb.kind == "rar" {
+					exp[i] = FP(cb.res[i])
+				}
+			}
+		case e.style == "providers" && e.provider[i]:
+			for _, cb := range cbs {
+				if cb.kind == fmt.Sprintf("prov%d", i) {
+					exp[i] = FP(cb.res[0])
+				}
+			}
+		default:
+			exp[i] = FP(e.retVals[i])
+		}
+	}
+	if got := fpsOf(outs); !eqStrs(got, exp) {
+		r.fail(&Violation{"results-differ", site, trig, "exactly the configured values / what the function returned: " + short(tupleOf(exp), 300), what + " returned " + short(tupleOf(got), 300)})
+	}
+}
+
+func nilTrigger(a argSet) string {
+	for _, v := range a.Vals {
+		if v.Kind() == reflect.Interface && v.IsNil() {
+			return "nil-interface-argument"
+		}
+	}
+	return "no-nil-interface-argument"
+}
+
+func (r *testifyRun) cleanup() {
+	if r.cleaned || r.ambiguous {
+		return
+	}
+	r.cleaned = true
+	site := r.reg.Variant
+	errs0 := len(r.t.Errors)
+	pv, panicked := safeCall(func() {
+		for i := len(r.t.Cleanups) - 1; i >= 0; i-- {
+			r.t.Cleanups[i]()
+		}
+	})
+	if _, isFail := pv.(failNowSentinel); panicked && !isFail {
+		r.fail(&Violation{"cleanup-panics", site, "", "cleanup reports, it does not panic", short(fmt.Sprint(pv), 300)})
+		return
+	}
+	if len(r.t.Cleanups) == 0 {
+		r.fail(&Violation{"constructor-registers-no-cleanup", site, "", "the constructor registers a cleanup that asserts expectations", "no cleanup registered"})
+		return
+	}
+	// judged only where testify's own bookkeeping cannot blur it: no two expectations of a
+	// method can match a common call
+	for i, a := range r.exps {
+		for _, b := range r.exps[i+1:] {
+			if a.m.Name != b.m.Name {
+				continue
+			}
+			short, long := a.matchers, b.matchers
+			if len(short) > len(long) {
+				short, long = long, short
+			}
+			overlap := true
+			for k := range short {
+				if short[k] != anyMatcher && long[k] != anyMatcher && short[k] != long[k] {
+					overlap = false
+				}
+			}
+			// testify lets Anything match a missing argument: a longer expectation whose extra
+			// matchers are all Anything can be "met" by a call made for the shorter one
+			for k := len(short); k < len(long); k++ {
+				if long[k] != anyMatcher {
+					overlap = false
+				}
+			}
+			if overlap {
+				r.tags["probe:cleanup-not-judged-overlapping-expectations"] = true
+				return
+			}
+		}
+	}
+	unmet := 0
+	for _, e := range r.exps {
+		if !e.optional && (e.count == 0 || (e.bound > 0 && e.count < e.bound)) {
+			unmet++
+		}
+	}
+	reported := len(r.t.Errors) > errs0
+	r.tags["probe:cleanup-judged"] = true
+	if unmet > 0 && !reported {
+		r.fail(&Violation{"unmet-expectation-not-reported", site, fmt.Sprintf("unroll=%v", r.unroll), "unmet expectations are reported when the test's cleanup runs", fmt.Sprintf("%d unmet, nothing reported", unmet)})
+	}
+	if unmet == 0 && reported {
+		r.fail(&Violation{"cleanup-reports-met-expectations", site, fmt.Sprintf("unroll=%v", r.unroll), "nothing to report: every expectation was met", short(strings.Join(r.t.Errors[errs0:], " / "), 400)})
+	}
+}
+
+// RunTestify executes one case on a fresh testify mock and judges it.
+func RunTestify(reg *Registration, cs *Case) (*Violation, RunStats) {
+	st := RunStats{Tasks: len(cs.Tasks)}
+	r := &testifyRun{reg: reg, cs: cs, t: &RecT{}, methods: ifaceMethods(reg.IfaceType), byOp: map[[2]int]*expState{}, unroll: reg.Opts["unroll-variadic"], tags: map[string]bool{}}
+	r.resGen = &Gen{R: NewRng(cs.Seed ^ 0xbeef), Prefix: "res", NilRate: cs.NilRate}
+	mockObj := reg.New(r.t)
+	r.mv = reflect.ValueOf(mockObj)
+	sim := simsync.New(cs.Sched)
+	touched := map[string]map[int]bool{}
+	for ti, ops := range cs.Tasks {
+		ti, ops := ti, ops
+		st.Ops += len(ops)
+		for _, op := range ops {
+			if touched[op.Method] == nil {
+				touched[op.Method] = map[int]bool{}
+			}
+			touched[op.Method][ti] = true
+		}
+		sim.Go(fmt.Sprintf("task%d", ti), func() {
+			for oi, op := range ops {
+				switch op.Kind {
+				case "expect":
+					r.register(ti, oi, op)
+				case "call":
+					r.call(ti, oi, op, ops)
+				case "cleanup":
+					r.cleanup()
+				}
+			}
+		})
+	}
+	for m, ts := range touched {
+		if m != "" && len(ts) >= 2 {
+			st.SharedMeth = true
+		}
+	}
+	sim.Run()
+	st.Steps, st.Preemptions, st.Blocks = sim.Steps, sim.Preemptions, sim.Blocks
+	st.SchedKey = fmt.Sprint(sim.Choices)
+	cs.Sched.Choices = sim.Choices
+	for t := range r.tags {
+		st.Tags = append(st.Tags, t)
+	}
+	sort.Strings(st.Tags)
+	site := reg.Variant
+	switch {
+	case sim.Fatal != "":
+		return &Violation{"runtime-fatal", site, sim.Fatal, "no fatal error", sim.Fatal}, st
+	case len(sim.Races) > 0:
+		ra := sim.Races[0]
+		return &Violation{"data-race", site, ra.Loc, "the generated code adds no unsynchronised shared state on top of testify's", fmt.Sprintf("%s: task %d at %s (write=%v) and task %d at %s (write=%v) are unordered", ra.Loc, ra.TaskA, ra.SiteA, ra.WriteA, ra.TaskB, ra.SiteB, ra.WriteB)}, st
+	case sim.Deadlock:
+		return &Violation{"deadlock", site, "", "every operation finishes", "tasks blocked with nothing runnable"}, st
+	case sim.Stalled:
+		return &Violation{"no-progress-within-step-bound", site, "", "all tasks finish within the step bound", "step cap reached"}, st
+	}
+	if r.viol != nil {
+		return r.viol, st
+	}
+	if r.ambiguous {
+		return nil, st
+	}
+	// testify's own record of calls equals the matched calls that completed
+	if f := r.mv.Elem().FieldByName("Mock"); f.IsValid() {
+		if n := f.FieldByName("Calls").Len(); n != r.calls {
+			return &Violation{"testify-call-record-count", site, "", fmt.Sprintf("%d calls recorded by testify", r.calls), fmt.Sprint(n)}, st
+		}
+	}
+	return nil, st
+}
+
+// tokenMethod reports whether some parameter of m carries a unique token (so that exact
+// matchers tell calls apart).
+func tokenMethod(m *methodInfo) bool {
+	for i := 0; i < m.Type.NumIn(); i++ {
+		if m.Variadic && i == m.Type.NumIn()-1 {
+			continue
+		}
+		switch m.Type.In(i).Kind() {
+		case reflect.String, reflect.Int, reflect.Int64, reflect.Float64, reflect.Struct:
+			return true
+		}
+	}
+	return false
+}
+
+var tStyles = []string{"return", "return", "run+return", "runandreturn", "runandreturn", "providers", "none", "run"}
+
+func genTestifyCase(prop string, reg *Registration, cs *Case, ms []methodInfo, r *Rng) {
+	if prop == "C03" {
+		cs.Sched = simsync.Config{Strategy: "random", Seed: r.U64(), MaxSteps: 20000}
+		// per method one matcher class, so that overlapping expectations are identical in shape
+		class := map[string]string{}
+		for i := range ms {
+			if tokenMethod(&ms[i]) && r.Chance(4, 5) {
+				class[ms[i].Name] = pickS(r, []string{"exact", "exact", "exact", "mixed"})
+			} else {
+				class[ms[i].Name] = "anything"
+			}
+		}
+		var ops []Op
+		n := 1 + r.Intn(14)
+		var expIdx []int
+		for i := 0; i < n; i++ {
+			k := r.Intn(10)
+			switch {
+			case k < 4 || len(expIdx) == 0:
+				m := ms[r.Intn(len(ms))]
+				op := Op{Kind: "expect", Method: m.Name, Seed: r.U64(), Style: pickS(r, tStyles), Times: pickS(r, []string{"", "", "once", "twice", "times3", "maybe"}), Match: class[m.Name]}
+				if r.Chance(1, 4) {
+					op.NArgs = 1 // empty variadic list
+				}
+				ops = append(ops, op)
+				expIdx = append(expIdx, len(ops))
+			case k < 9:
+				ref := expIdx[r.Intn(len(expIdx))]
+				ops = append(ops, Op{Kind: "call", Method: ops[ref-1].Method, Ref: ref})
+			default:
+				m := ms[r.Intn(len(ms))]
+				ops = append(ops, Op{Kind: "call", Method: m.Name, Seed: r.U64()}) // most likely unmatched
+			}
+		}
+		if r.Chance(2, 3) {
+			ops = append(ops, Op{Kind: "cleanup"})
+		}
+		cs.Tasks = [][]Op{ops}
+		return
+	}
+	// C05: several tasks, each registering its own (exactly matched, token-carrying)
+	// expectations and calling them; one task may call without expectation
+	var tok []methodInfo
+	for i := range ms {
+		if tokenMethod(&ms[i]) {
+			tok = append(tok, ms[i])
+		}
+	}
+	if len(tok) == 0 {
+		tok = ms
+	}
+	hot := tok[r.Intn(len(tok))]
+	nt := 2 + r.Intn(3)
+	for t := 0; t < nt; t++ {
+		var ops []Op
+		ne := 1 + r.Intn(2)
+		for e := 0; e < ne; e++ {
+			m := hot
+			if r.Chance(1, 3) {
+				m = tok[r.Intn(len(tok))]
+			}
+			ops = append(ops, Op{Kind: "expect", Method: m.Name, Seed: r.U64(), Style: pickS(r, []string{"return", "run+return", "runandreturn", "providers"}), Times: pickS(r, []string{"", "", "once"}), Match: "exact"})
+			ref := len(ops)
+			nc := 1 + r.Intn(2)
+			if ops[ref-1].Times == "once" {
+				nc = 1
+			}
+			for c := 0; c < nc; c++ {
+				ops = append(ops, Op{Kind: "call", Method: m.Name, Ref: ref})
+			}
+		}
+		if t == nt-1 && r.Chance(1, 3) && tokenMethod(&hot) {
+			ops = append(ops, Op{Kind: "call", Method: hot.Name, Seed: r.U64()}) // unmatched: FailNow mid-call
+		}
+		cs.Tasks = append(cs.Tasks, ops)
+	}
+	cs.NilRate = 0 // tokens must stay unique across tasks
+	cs.Sched = schedFor(r)
+}
